@@ -277,7 +277,7 @@ func runC15(r *Run, rng *Rng, thorough bool) {
 	{
 		dst := &ShFlat{}
 		err := encoding.PopulateStructFromCBOR(extDM, nMap([2]*Node{nUint(2), nTstr("x")}).Bytes(), dst) // -4 missing
-		r.Case("missing-mandatory", false, "pop flat a1026178", okErr(err))
+		r.Case("missing-mandatory", false, "pop flat "+hx(nMap([2]*Node{nUint(2), nTstr("x")}).Bytes()), okErr(err))
 		if err == nil {
 			r.Fail("missing-mandatory", "a missing non-optional key is not an error")
 		}
@@ -288,7 +288,7 @@ func runC15(r *Run, rng *Rng, thorough bool) {
 			r.Fail("duplicate-key", "a duplicate key in CBOR input is not an error")
 		}
 		err = encoding.PopulateStructFromJSON([]byte(`{"b":"x"}`), &ShFlat{})
-		r.Case("missing-mandatory-json", false, "popj flat {b}", okErr(err))
+		r.ImplOnly("missing-mandatory-json", false, "popj flat {b}")
 		if err == nil {
 			r.Fail("missing-mandatory", "a missing non-optional JSON member is not an error")
 		}
